@@ -322,7 +322,7 @@ pub const LAYOUTS: [(&str, bool, Option<bool>); 28] = [
     ("username-non-utf8-peer-part", true, None), ("attributes-after-mi", true, Some(true)), ("truncated-final-attribute-after-mi", true, None),
     ("oversized-attribute-before-mi", false, Some(false)), ("mi-inside-another-attribute", false, Some(false)),
     ("nonzero-padding-bytes", true, Some(true)), ("missing-padding-misaligned-mi", false, Some(false)), ("full-mi-wrong-key", false, Some(false)),
-    ("header-length-mismatch", true, None), ("two-usernames-foreign-first", true, None), ("mi-len-0-no-username", false, Some(false)),
+    ("header-length-mismatch", true, None), ("two-usernames-foreign-first", false, Some(false)), ("mi-len-0-no-username", false, Some(false)),
     ("genuine", true, Some(true)),
 ];
 
